@@ -1,9 +1,201 @@
-(* C14 — property theorems only. *)
-From Coq Require Import List Arith ZArith Bool.
-From Verif Require Import lib.Wire c14.Model c14.Spec c14.Proofs.
+(* C14 — property theorems only.  Each is closed by [exact] of a lemma from
+   Proofs*.v and followed by Print Assumptions. *)
+From Coq Require Import List Arith ZArith Bool Permutation Sorted.
+From Verif Require Import lib.Wire c14.Model c14.Spec c14.Proofs c14.Proofs_Abs c14.Proofs_Trim c14.Proofs_Main.
 Import ListNotations.
 Local Open Scope Z_scope.
 
-Theorem c14_zsum_upd : forall l i x, zsum (upd 0 l i x) = zsum l - get 0 l i + x.
-Proof. exact zsum_upd. Qed.
-Print Assumptions c14_zsum_upd.
+(* THE property on traces.  For every configuration with a non-negative low
+   watermark and every finite history of Connected/Disconnected (duplicates,
+   unknown connections), TagPeer/UntagPeer/UpsertTag, decaying Bump/Remove/
+   Close, Protect/Unprotect, clock advances, TrimOpenConns and ForceTrim over
+   the np observed peers, the trace of the model is accepted by the very
+   monitor that is run on the implementation's traces: after every operation
+   the connection count and every peer's tag total equal what the bookkeeping
+   of Spec.v derives from the operations alone, every TrimOpenConns closed set
+   satisfies trim_prop and every ForceTrim closed set satisfies force_prop.
+   PARTIAL: histories are sequential (each operation atomic); trims racing
+   with other operations are covered by the correspondence only. *)
+Theorem c14_monitor_accepts_model_partial : forall cfg np ops,
+  0 <= c_low cfg -> Forall (op_within np) ops ->
+  monitor cfg np (mtrace cfg np (init cfg) ops) = [].
+Proof. exact monitor_model. Qed.
+Print Assumptions c14_monitor_accepts_model_partial.
+
+(* "each peer's tag total": the cached value equals the sum of the peer's tag
+   values (plain and decaying) after every history, trims included *)
+Theorem c14_value_is_tag_sum : forall cfg ops p,
+  let s := run isort cfg (init cfg) ops in
+  p_value (peer_at s p) = zsum (p_tags (peer_at s p)) + zsum (p_dec (peer_at s p)).
+Proof.
+  intros cfg ops p s.
+  exact (proj1 (proj2 (peer_at_ok s p (inv_run isort isort_perm cfg ops (init cfg) (inv_init cfg))))).
+Qed.
+Print Assumptions c14_value_is_tag_sum.
+
+(* "the manager's connection count": the cached count equals the number of
+   tracked connections after every history, trims included *)
+Theorem c14_conncount_is_sum : forall cfg ops,
+  let s := run isort cfg (init cfg) ops in
+  count s = zsum (map (fun pi => zlen (p_conns pi)) (peers s)).
+Proof.
+  intros cfg ops s. exact (proj2 (inv_run isort isort_perm cfg ops (init cfg) (inv_init cfg))).
+Qed.
+Print Assumptions c14_conncount_is_sum.
+
+(* "equal what the notifications and tag operations delivered so far imply":
+   on every reachable state every non-trim operation of the model commutes
+   with the cache-free bookkeeping step (refinement) *)
+Theorem c14_model_refines_bookkeeping : forall cfg ops o,
+  let s := run isort cfg (init cfg) ops in
+  is_trim o = false -> abs (fst (step isort cfg s o)) = astep cfg (abs s) o.
+Proof.
+  intros cfg ops o s. exact (abs_step isort cfg s o (inv_run isort isort_perm cfg ops (init cfg) (inv_init cfg))).
+Qed.
+Print Assumptions c14_model_refines_bookkeeping.
+
+(* every closed set the code can produce (ties, map order, unstable sort:
+   anything satisfying trim_ok) has the property clauses *)
+Theorem c14_trim_ok_sound : forall cfg s cl, trim_ok cfg s cl = true -> trim_prop cfg s cl = true.
+Proof. exact trim_ok_sound_l. Qed.
+Print Assumptions c14_trim_ok_sound.
+
+(* the clauses, spelled out: a trim closes only tracked connections of peers
+   that are not protected and whose grace period is over; never closes a peer
+   while a strictly lower-valued eligible peer keeps a connection; does nothing
+   at or below the low watermark; otherwise leaves at most low-watermark
+   connections among the eligible peers *)
+Theorem c14_trim_clauses : forall cfg s cl, trim_prop cfg s cl = true ->
+  (forall p c, In (p, c) cl ->
+     is_prot (a_prot s) p = false /\ a_first (ap_at s p) <= a_now s - c_grace cfg
+     /\ In c (a_conns (ap_at s p)))
+  /\ (forall p c q, In (p, c) cl -> In q (pids s) -> eligible cfg s q = true -> keptp s cl q = true ->
+        total (ap_at s p) <= total (ap_at s q))
+  /\ (acount s <= c_low cfg -> cl = [])
+  /\ (disabled cfg = false -> c_low cfg < acount s -> remaining_eligible cfg s cl <= c_low cfg).
+Proof. exact trim_prop_spec. Qed.
+Print Assumptions c14_trim_clauses.
+
+(* for ANY sort that returns a permutation ordered by the (temp, value) key,
+   getConnsToClose's result satisfies trim_ok on every state meeting the
+   invariant (non-vacuity of trim_ok; the invariant holds on all reachable
+   states, see c14_value_is_tag_sum / c14_conncount_is_sum) *)
+Theorem c14_model_trim_ok : forall (sort : list cand -> list cand),
+  (forall l, Permutation (sort l) l) -> (forall l, StronglySorted kle (sort l)) ->
+  forall cfg s, inv s -> 0 <= c_low cfg -> trim_ok cfg (abs s) (snd (trim sort cfg s)) = true.
+Proof. exact model_trim_ok_l. Qed.
+Print Assumptions c14_model_trim_ok.
+
+(* ForceTrim: for any such sort, a protected peer's connection is selected
+   only if every connection of every unprotected peer is selected; within the
+   unprotected and within the protected peers lowest value first; nothing at or
+   below the low watermark *)
+Theorem c14_force_trim_protected_last : forall (sort : list cand -> list cand),
+  (forall l, Permutation (sort l) l) -> (forall l, StronglySorted kle (sort l)) ->
+  forall cfg s, inv s ->
+  let a := abs s in let cl := force_trim sort cfg s in
+  (forall p c, In (p, c) cl -> In c (a_conns (ap_at a p)))
+  /\ (forall p c, In (p, c) cl -> is_prot (a_prot a) p = true ->
+        forall q d, In q (pids a) -> is_prot (a_prot a) q = false -> In d (a_conns (ap_at a q)) -> In (q, d) cl)
+  /\ (forall p c q, In (p, c) cl -> In q (pids a) -> is_prot (a_prot a) q = is_prot (a_prot a) p ->
+        keptp a cl q = true -> total (ap_at a p) <= total (ap_at a q))
+  /\ (acount a <= c_low cfg -> cl = []).
+Proof.
+  intros sort Hp Hs cfg s Hinv. exact (force_prop_spec cfg (abs s) _ (model_force_ok_l sort Hp Hs cfg s Hinv)).
+Qed.
+Print Assumptions c14_force_trim_protected_last.
+
+(* the sort hypotheses are satisfiable: stable insertion sort meets them *)
+Theorem c14_isort_is_a_sort :
+  (forall l, Permutation (isort l) l) /\ (forall l, StronglySorted kle (isort l)).
+Proof. exact (conj isort_perm isort_sorted). Qed.
+Print Assumptions c14_isort_is_a_sort.
+
+(* observed while transcribing (not demanded by the property text, which only
+   PERMITS a forced trim to close protected peers): getConnsToCloseEmergency
+   compares the first selection with the already decremented target, so a
+   forced trim can stop above the low watermark although protected peers are
+   left.  low = 1; peer 0 unprotected with 3 connections, peers 1..3 protected
+   with one each: ForceTrim closes 3 connections and keeps 3 > low. *)
+Theorem c14_force_trim_may_stop_above_low :
+  let cfg := mkCfg 1 3 0 1 [] in
+  let s := run isort cfg (init cfg)
+             [Connected 0 0; Connected 0 1; Connected 0 2; Connected 1 0; Connected 2 0; Connected 3 0;
+              Protect 1 0; Protect 2 0; Protect 3 0] in
+  count s = 6 /\ length (force_trim isort cfg s) = 3%nat.
+Proof. vm_compute. split; reflexivity. Qed.
+Print Assumptions c14_force_trim_may_stop_above_low.
+
+(* ---- non-vacuity ------------------------------------------------------------------ *)
+(* a reachable state in which a trim closes the lowest-valued unprotected peer
+   outside its grace period and keeps the protected and the young one *)
+Example trim_closes_lowest :
+  let cfg := mkCfg 1 3 5 1 [] in
+  let s := run isort cfg (init cfg)
+             [Connected 0 0; Connected 1 0; Connected 2 0; TagPeer 0 0 7; TagPeer 1 0 3; TagPeer 2 0 1;
+              Protect 2 0; Advance 5; Connected 3 0] in
+  inv s /\ snd (trim isort cfg s) = [(1%nat, 0%nat)].
+Proof. split; [apply (inv_run isort isort_perm), inv_init|vm_compute; reflexivity]. Qed.
+
+(* the monitor rejects: a trim that closes a protected peer *)
+Example monitor_rejects_protected_closed :
+  monitor (mkCfg 1 3 0 1 []) 2
+    [(Connected 0 0, mkObs 1 [(true, 0, 0); (false, 0, 0)] []);
+     (Connected 1 0, mkObs 2 [(true, 0, 0); (true, 0, 0)] []);
+     (Protect 0 0,   mkObs 2 [(true, 0, 0); (true, 0, 0)] []);
+     (Trim,          mkObs 2 [(true, 0, 0); (true, 0, 0)] [(0%nat, 0%nat)])] = [ERR_PROPERTY; 3; 1].
+Proof. vm_compute. reflexivity. Qed.
+
+(* ... a trim that closes a peer inside its grace period *)
+Example monitor_rejects_grace_closed :
+  monitor (mkCfg 1 3 5 1 []) 2
+    [(Connected 0 0, mkObs 1 [(true, 0, 0); (false, 0, 0)] []);
+     (Advance 5,     mkObs 1 [(true, 0, 0); (false, 0, 0)] []);
+     (Connected 1 0, mkObs 2 [(true, 0, 0); (true, 0, 0)] []);
+     (Trim,          mkObs 2 [(true, 0, 0); (true, 0, 0)] [(1%nat, 0%nat)])] = [ERR_PROPERTY; 3; 1].
+Proof. vm_compute. reflexivity. Qed.
+
+(* ... a trim that closes a peer while a lower-valued eligible peer is kept *)
+Example monitor_rejects_wrong_order :
+  monitor (mkCfg 1 3 0 1 []) 2
+    [(Connected 0 0, mkObs 1 [(true, 0, 0); (false, 0, 0)] []);
+     (Connected 1 0, mkObs 2 [(true, 0, 0); (true, 0, 0)] []);
+     (TagPeer 0 0 5, mkObs 2 [(true, 5, 5); (true, 0, 0)] []);
+     (Trim,          mkObs 2 [(true, 5, 5); (true, 0, 0)] [(0%nat, 0%nat)])] = [ERR_PROPERTY; 3; 1].
+Proof. vm_compute. reflexivity. Qed.
+
+(* ... a trim at the low watermark that closes something, one that leaves too many *)
+Example monitor_rejects_trim_below_low :
+  monitor (mkCfg 2 3 0 1 []) 2
+    [(Connected 0 0, mkObs 1 [(true, 0, 0); (false, 0, 0)] []);
+     (Connected 1 0, mkObs 2 [(true, 0, 0); (true, 0, 0)] []);
+     (Trim,          mkObs 2 [(true, 0, 0); (true, 0, 0)] [(0%nat, 0%nat)])] = [ERR_PROPERTY; 2; 1].
+Proof. vm_compute. reflexivity. Qed.
+
+Example monitor_rejects_too_many_left :
+  monitor (mkCfg 1 3 0 1 []) 3
+    [(Connected 0 0, mkObs 1 [(true, 0, 0); (false, 0, 0); (false, 0, 0)] []);
+     (Connected 1 0, mkObs 2 [(true, 0, 0); (true, 0, 0); (false, 0, 0)] []);
+     (Connected 2 0, mkObs 3 [(true, 0, 0); (true, 0, 0); (true, 0, 0)] []);
+     (Trim,          mkObs 3 [(true, 0, 0); (true, 0, 0); (true, 0, 0)] [(0%nat, 0%nat)])] = [ERR_PROPERTY; 3; 1].
+Proof. vm_compute. reflexivity. Qed.
+
+(* ... a wrong connection count, a wrong tag total, a forced trim that closes
+   a protected peer while an unprotected one is kept *)
+Example monitor_rejects_wrong_count :
+  monitor (mkCfg 1 3 0 1 []) 1
+    [(Connected 0 0, mkObs 1 [(true, 0, 0)] []); (Connected 0 0, mkObs 2 [(true, 0, 0)] [])] = [ERR_PROPERTY; 1; 3].
+Proof. vm_compute. reflexivity. Qed.
+
+Example monitor_rejects_wrong_total :
+  monitor (mkCfg 1 3 0 1 []) 1
+    [(TagPeer 0 0 4, mkObs 0 [(true, 4, 4)] []); (TagPeer 0 0 1, mkObs 0 [(true, 5, 5)] [])] = [ERR_PROPERTY; 1; 4].
+Proof. vm_compute. reflexivity. Qed.
+
+Example monitor_rejects_forced_protected_first :
+  monitor (mkCfg 0 3 0 1 []) 2
+    [(Connected 0 0, mkObs 1 [(true, 0, 0); (false, 0, 0)] []);
+     (Connected 1 0, mkObs 2 [(true, 0, 0); (true, 0, 0)] []);
+     (Protect 0 0,   mkObs 2 [(true, 0, 0); (true, 0, 0)] []);
+     (ForceTrim,     mkObs 2 [(true, 0, 0); (true, 0, 0)] [(0%nat, 0%nat)])] = [ERR_PROPERTY; 3; 2].
+Proof. vm_compute. reflexivity. Qed.
